@@ -161,6 +161,73 @@ theorem parse_marshal_with_C01_none (na : Char → Bool) (maxLen : Nat) (st st' 
   parse_marshal_wire_none Gen.Message.tables tables_ok na maxLen st st' c m hs ts pv items vs lall bs fuel hsig hne hbody
     hoob hts hitems hrep hkeys henc hfuel h
 
+/-- **C03 composed with C01: `parse_marshal` with no hypothesis about the codec.**  The body codec is `wireCodec fuel`
+(Msg/WireCodec.lean): C01's code model of `marshal.marshal` / `marshal.unmarshal` at the offsets message.py uses
+(startByte 0 of the 8-aligned body, byte order of the message).  For ANY of the four constructors, called without a
+descriptor list (`oobFDs=None`) or with an empty one (`oobFDs=[]`), with a non-empty signature `renderAll ts` and a body
+in C01's stated domain - `ts` without empty structs, the `variableList` `pv` conforming to `ts` and denoting the spec
+values `vs` (`Code.RepFields`), dict keys hashable and pairwise distinct, the values within the wire limits
+(`Spec.encodeAll … = some bs`), `fuel` at least the nesting depth - `parseMessage(m.rawMessage, fdl)` returns the same
+class, serial, both flags, every header attribute AND the same body values (`Code.plainList items`: C01's normal form -
+tuples as lists, wrappers as plain values); `rawBody` is the specification encoding `bs`.  (`hC` of `parse_marshal` is
+proved for this instance: `wireCodec_hC` / `parse_marshal_wire_core` in Proofs/Msg/WithWire.lean, from
+`Code.marshal_eq_spec`, `Code.unmarshal_eq_spec`, `Code.fromSpecFields_of_rep` - the lemmas `C01_roundtrip` is made of.) -/
+theorem parse_marshal_c01 (na : Char → Bool) (maxLen : Nat) (st st' : St)
+    (c : Call PyVal) (m : Msg PyVal) (hs : 1 ≤ st.nextSerial)
+    (ts : List Ty) (pv : PyVal) (items : List PyVal) (vs : List Val) (fdl : List PyVal) (bs : Bytes) (fuel : Nat)
+    (hsig : c.signature = some (renderAll ts)) (hne : renderAll ts ≠ []) (hbody : c.body = some pv)
+    (hoob : c.oob = none ∨ c.oob = some [])
+    (hts : allWF ts = true) (hitems : Code.topItems pv = .ok items)
+    (hrep : Code.RepFields fdl vs c.oob.isSome ts items 0 (if c.oob.isSome then fdl.length else 0))
+    (hkeys : Code.KeysOKList items)
+    (henc : Spec.encodeAll Code.genAlign (endianOf true) ts vs 0 = some bs) (hfuel : depthAll vs ≤ fuel)
+    (h : construct Gen.Message.tables (wireCodec fuel) na maxLen st c = (st', .ok m)) :
+    ∃ m' : Msg PyVal, parseMessage Gen.Message.tables (wireCodec fuel) m.raw (some fdl) = .ok m' ∧
+      m'.cls = m.cls ∧ m'.serial = m.serial ∧ m'.expectReply = m.expectReply ∧ m'.autoStart = m.autoStart ∧
+      (∀ x, m'.attrs x = plain (m.attrs x)) ∧
+      m'.body = some (.list (Code.plainList items)) ∧ m'.rawBody = bs ∧ m.rawBody = bs ∧ m.body = some pv :=
+  parse_marshal_c01_gen Gen.Message.tables tables_ok na maxLen st st' c m hs ts pv items vs fdl bs fuel hsig hne hbody hoob
+    hts hitems hrep hkeys henc hfuel h
+
+/-- The same with C01's EXECUTABLE premises (those of `C01_roundtrip_checked`: `Code.toSpecTop` computes the spec values
+and the descriptors of the body, `Code.keysOKCheck` checks the dict keys), for a call with `oobFDs=[]`; the decoded body is
+`Code.plainBList items` (a `Boolean` wrapper decodes to its bool).  Instantiated on a concrete message below. -/
+theorem parse_marshal_c01_checked (na : Char → Bool) (maxLen : Nat) (st st' : St)
+    (c : Call PyVal) (m : Msg PyVal) (hs : 1 ≤ st.nextSerial)
+    (n : Nat) (ts : List Ty) (pv : PyVal) (vs : List Val) (fdl : List PyVal) (bs : Bytes) (fuel : Nat)
+    (hsig : c.signature = some (renderAll ts)) (hne : renderAll ts ≠ []) (hbody : c.body = some pv)
+    (hoob : c.oob = some [])
+    (hts : allWF ts = true) (hchk : Code.toSpecTop n ts pv = some (vs, fdl)) (hkeys : Code.keysOKCheck pv = true)
+    (henc : Spec.encodeAll Code.genAlign (endianOf true) ts vs 0 = some bs) (hfuel : depthAll vs ≤ fuel)
+    (h : construct Gen.Message.tables (wireCodec fuel) na maxLen st c = (st', .ok m)) :
+    ∃ items, Code.structFields pv = some items ∧
+    ∃ m' : Msg PyVal, parseMessage Gen.Message.tables (wireCodec fuel) m.raw (some fdl) = .ok m' ∧
+      m'.cls = m.cls ∧ m'.serial = m.serial ∧ m'.expectReply = m.expectReply ∧ m'.autoStart = m.autoStart ∧
+      (∀ x, m'.attrs x = plain (m.attrs x)) ∧
+      m'.body = some (.list (Code.plainBList items)) ∧ m'.rawBody = bs ∧ m.rawBody = bs ∧ m.body = some pv :=
+  parse_marshal_c01_checked_gen Gen.Message.tables tables_ok na maxLen st st' c m hs n ts pv vs fdl bs fuel hsig hne hbody
+    hoob hts hchk hkeys henc hfuel h
+
+/-- A message without a body (no signature, or the empty one) asks nothing of the codec. -/
+theorem parse_marshal_no_body (na : Char → Bool) (maxLen : Nat) (st st' : St)
+    (c : Call PyVal) (m : Msg PyVal) (hs : 1 ≤ st.nextSerial) (fuel : Nat) (fdsArg : Option (List PyVal))
+    (hsig : c.signature = none ∨ c.signature = some [])
+    (h : construct Gen.Message.tables (wireCodec fuel) na maxLen st c = (st', .ok m)) :
+    ∃ m' : Msg PyVal, parseMessage Gen.Message.tables (wireCodec fuel) m.raw fdsArg = .ok m' ∧
+      m'.cls = m.cls ∧ m'.serial = m.serial ∧ m'.expectReply = m.expectReply ∧ m'.autoStart = m.autoStart ∧
+      (∀ x, m'.attrs x = plain (m.attrs x)) ∧ m'.body = none ∧ m'.rawBody = [] ∧ m.rawBody = [] :=
+  parse_marshal_no_body_gen Gen.Message.tables tables_ok na maxLen st st' c m hs fuel fdsArg hsig h
+
+/-- `marshal_wellformed` has no hypothesis about the codec (it holds for every `BodyCodec`); its one premise about the
+signature, `SigNoNul`, holds for every signature that is the rendering of types - in particular for every body in C01's domain. -/
+theorem sigNoNul_of_render {β : Type} (c : Call β) (ts : List Ty) (hsig : c.signature = some (renderAll ts)) :
+    SigNoNul c := by
+  intro sg hsg
+  rw [hsig] at hsg
+  simp only [Option.some.injEq] at hsg
+  subst hsg
+  exact render_noNul ts
+
 /-- **Parsing what another implementation would send.**  Let `w` be any valid message of the
 specification (`SpecMsg.valid`: sizes, the header-field type table, the required fields of its type; either byte
 order; `Spec.encodeMsg w` are its bytes) whose field list is, in any order,
@@ -373,6 +440,54 @@ example :
     exact ⟨.i, rfl, Or.inr ⟨by decide, ⟨_, rfl⟩, rfl⟩⟩
   · simp [Code.KeysOKList, Code.KeysOK]
 
+/-- `parse_marshal_c01_checked` on a concrete message with a non-trivial body: `MethodCallMessage('/a', 'm',
+signature='saivh', body=['hi', (1, Int32(-2)), UInt32(7), 42], oobFDs=[])` (a string, a tuple for an array, a variant whose
+content is inferred 'u', a descriptor) as the first message of a process.  Every premise is discharged by evaluation, and
+the theorem yields: parsing its 104 bytes with the collected descriptor list `[42]` returns the body
+`['hi', [1, -2], 7, 42]`. -/
+example :
+    ∃ m m', (construct Gen.Message.tables (wireCodec 4) (fun _ => false) Gen.Message.maxMsgLen (St.init Gen.Message.tables)
+        (.methodCall { path := some "/a".toList, member := some "m".toList,
+                       signature := some "saivh".toList,
+                       body := some (.list [.str .plain "hi".toList, .tuple [.int .plain 1, .int .int32 (-2)],
+                                            .int .uint32 7, .int .plain 42]),
+                       oobFDs := some [] })).2 = .ok m ∧
+      parseMessage Gen.Message.tables (wireCodec 4) m.raw (some [.int .plain 42]) = .ok m' ∧
+      m'.body = some (.list [.str .plain "hi".toList, .list [.int .plain 1, .int .plain (-2)], .int .plain 7, .int .plain 42]) ∧
+      m'.serial = 1 ∧ m.rawBody.length = 32 := by
+  let ts : List Ty := [.basic .s, .array (.basic .i), .variant, .basic .h]
+  let pv : PyVal := .list [.str .plain "hi".toList, .tuple [.int .plain 1, .int .int32 (-2)], .int .uint32 7, .int .plain 42]
+  let c : Call PyVal := .methodCall { path := some "/a".toList, member := some "m".toList, signature := some "saivh".toList,
+                                      body := some pv, oobFDs := some [] }
+  let vs : List Val := [.str [104, 105], .array [.int 1, .int (-2)], .variant (.basic .u) (.int 7), .int 0]
+  let bs : Bytes := [2, 0, 0, 0, 104, 105, 0, 0, 8, 0, 0, 0, 1, 0, 0, 0, 254, 255, 255, 255, 1, 117, 0, 0, 7, 0, 0, 0, 0, 0, 0, 0]
+  cases hr : construct Gen.Message.tables (wireCodec 4) (fun _ => false) Gen.Message.maxMsgLen (St.init Gen.Message.tables) c with
+  | mk st' r =>
+    cases r with
+    | error e =>
+      exfalso
+      have : (construct Gen.Message.tables (wireCodec 4) (fun _ => false) Gen.Message.maxMsgLen
+                (St.init Gen.Message.tables) c).2.toOption.isSome = true := by decide +kernel
+      rw [hr] at this
+      cases this
+    | ok m =>
+      obtain ⟨items, hitems, m', p1, _, p3, _, _, _, p7, _, p9, _⟩ :=
+        parse_marshal_c01_checked (fun _ => false) Gen.Message.maxMsgLen (St.init Gen.Message.tables) st' c m (by decide)
+          20 ts pv vs [.int .plain 42] bs 4 rfl (by decide) rfl rfl (by decide) rfl rfl (by decide +kernel) (by decide) hr
+      have hi : items = [.str .plain "hi".toList, .tuple [.int .plain 1, .int .int32 (-2)], .int .uint32 7, .int .plain 42] := by
+        have : Code.structFields pv = some [.str .plain "hi".toList, .tuple [.int .plain 1, .int .int32 (-2)], .int .uint32 7, .int .plain 42] := rfl
+        rw [this] at hitems
+        exact (Option.some.inj hitems).symm
+      subst hi
+      have hm1 : m.serial = 1 := by
+        have := (construct_ok Gen.Message.tables tables_ok (wireCodec 4) (fun _ => false) Gen.Message.maxMsgLen
+          (St.init Gen.Message.tables) st' c m hr)
+        obtain ⟨sm, hb⟩ := this
+        exact hb.serial
+      refine ⟨m, m', rfl, p1, ?_, by rw [p3, hm1], by rw [p9]; rfl⟩
+      rw [p7]
+      rfl
+
 /-! ## Witnesses: the code before the repairs violates the property (the replays of F4 and F5) -/
 
 /-- F4 (repaired by 7466ae7): before the repair `parseMessage` ignored the flags byte - a call built with
@@ -407,6 +522,10 @@ end Txdbus.Msg
 #print axioms Txdbus.Msg.serial_fresh
 #print axioms Txdbus.Msg.serial_init
 #print axioms Txdbus.Msg.parse_marshal
+#print axioms Txdbus.Msg.parse_marshal_c01
+#print axioms Txdbus.Msg.parse_marshal_c01_checked
+#print axioms Txdbus.Msg.parse_marshal_no_body
+#print axioms Txdbus.Msg.sigNoNul_of_render
 #print axioms Txdbus.Msg.parse_marshal_with_C01
 #print axioms Txdbus.Msg.parse_marshal_with_C01_none
 #print axioms Txdbus.Msg.parse_foreign
